@@ -52,6 +52,12 @@ LowerC(e) == LET src == regs[e.a]
         <<"lowered_map", e.p = 1 \/ LoweredOK(Sem(e.cells), exp)>>,
         <<"packed_if_asked", e.p = 1 \/ e.packing = 0 \/ Packed(e.cells)>> >>
 
+(* ---- unordered: the cells of register a pushed in a shuffled order, BMOCBuilderUnsafe::to_bmoc_from_unordered (C09) ---- *)
+UnorderedC(e) == LET src == regs[e.a] IN
+  << <<"panic", e.p = 0>>, <<"dmax", e.p = 1 \/ e.dmax = src.dmax>>,
+     <<"wellformed", e.p = 1 \/ WellFormed(Value(e))>>,
+     <<"same_entries", e.p = 1 \/ ~WellFormed(src) \/ e.cells = src.cells>> >>
+
 (* ---- fixed-depth builder (C15): the result covers exactly the pushed cells with the requested flag ---- *)
 RECURSIVE PushAll(_, _, _)
 PushAll(hs, v, forest) == IF hs = <<>> THEN forest
@@ -139,6 +145,7 @@ Clauses(e) == CASE e.ev = "new" -> NewC(e)
                 [] e.ev = "polygon" -> PolygonC(e)
                 [] e.ev = "reset" -> <<>>
                 [] e.ev = "pack" -> PackC(e)
+                [] e.ev = "unordered" -> UnorderedC(e)
                 [] e.ev = "lower" -> LowerC(e)
                 [] e.ev = "fixed" -> FixedC(e)
                 [] e.ev = "query" -> QueryC(e)
